@@ -9,6 +9,8 @@ import z3
 from .nir2smt import TS, unroll, bv, Unsupported, raw
 
 QUERY_TIMEOUT_MS = 120_000
+RLIMIT_PER_MS = 10_000            # z3 spends about 8.6e6 resource units per second on these queries (measured)
+WALL_BACKSTOP_FACTOR = 6
 
 
 class Inconclusive(Exception):
@@ -133,7 +135,12 @@ def solve(assertions, stats=None, label=None, timeout_ms=QUERY_TIMEOUT_MS, want_
     goal = z3.And(*assertions) if len(assertions) != 1 else assertions[0]
     simp = goal        # NOT z3.simplify(goal): the rewriter can blow up on deep reset-rooted unrollings
     s = z3.SolverFor("QF_BV")
-    s.set("timeout", timeout_ms)
+    # The budget of a query is a RESOURCE limit (deterministic, independent of how loaded the machine is), sized so that
+    # on an idle core it corresponds to roughly `timeout_ms`; the wall-clock timeout is only a backstop, several times
+    # larger.  (A wall-clock budget alone made two heavy C14 queries come back "unknown" when the machine was busy
+    # with other work: 11 s idle, > 120 s under load.)
+    s.set("rlimit", int(timeout_ms * RLIMIT_PER_MS))
+    s.set("timeout", int(timeout_ms * WALL_BACKSTOP_FACTOR))
     s.add(simp)
     t0 = time.time()
     # (a hard wall-clock limit per configuration is enforced by the parent process in common.py)
